@@ -20,6 +20,29 @@ pub struct DelaunayReport {
     pub strict: bool,
     /// some cell is exactly degenerate (flat) — in-sphere undefined there
     pub degenerate_cells: usize,
+    /// number of violations (A, v) where v is the apex of a facet-neighbour B of A (a *local*
+    /// violation: then A's apex is inside B's circumsphere as well, by symmetry)
+    pub local_violations: usize,
+    /// locally non-Delaunay facets (pairs of facet-adjacent cells in mutual violation), and how
+    /// many of them have a k=2 flip that would create an exactly degenerate (flat) cell
+    pub local_facets: usize,
+    pub local_facets_degenerate_flip: usize,
+}
+
+impl DelaunayReport {
+    /// "local" when every violation is a facet-neighbour (mutual) violation, "global" otherwise.
+    pub fn violation_class(&self) -> String {
+        if self.violations.is_empty() {
+            return "none".into();
+        }
+        let scope = if self.local_violations == self.violations.len() { "all-local-mutual" } else { "has-nonlocal" };
+        let flips = if self.local_facets > 0 && self.local_facets == self.local_facets_degenerate_flip {
+            "local-flips-all-degenerate"
+        } else {
+            "local-flip-available"
+        };
+        format!("{scope}|{flips}")
+    }
 }
 
 pub fn check(snap: &Snap) -> DelaunayReport {
@@ -55,6 +78,51 @@ pub fn check(snap: &Snap) -> DelaunayReport {
             if s.sign > 0 {
                 rep.violations.push((c.key, v.key));
                 rep.strict = false;
+                // is v the apex of a cell sharing a facet with c?
+                let is_local = snap.cells.iter().any(|b| {
+                    b.key != c.key
+                        && b.verts.contains(&v.key)
+                        && b.verts.iter().filter(|x| c.verts.contains(x)).count() == snap.dim
+                });
+                if is_local {
+                    rep.local_violations += 1;
+                    // the facet shared by c and the neighbour b whose apex is v
+                    if let Some(b) = snap.cells.iter().find(|b| {
+                        b.key != c.key
+                            && b.verts.contains(&v.key)
+                            && b.verts.iter().filter(|x| c.verts.contains(x)).count() == snap.dim
+                    }) && c.key < b.key
+                    {
+                        rep.local_facets += 1;
+                        let facet: Vec<u64> = c.verts.iter().copied().filter(|x| b.verts.contains(x)).collect();
+                        let apex_a = c.verts.iter().copied().find(|x| !b.verts.contains(x));
+                        if let Some(apex_a) = apex_a
+                            && let (Some(pa), Some(pb)) = (coords.get(&apex_a), coords.get(&v.key))
+                        {
+                            let mut degenerate = false;
+                            for omit in &facet {
+                                let mut pts: Vec<&[f64]> = vec![pa, pb];
+                                for f in &facet {
+                                    if f != omit
+                                        && let Some(p) = coords.get(f)
+                                    {
+                                        pts.push(p);
+                                    }
+                                }
+                                if pts.len() == snap.dim + 1 {
+                                    // flat exactly, or flat within the predicates' tolerance band
+                                    let o = exact::orient(&pts);
+                                    if o.sign == 0 || !o.decidable {
+                                        degenerate = true;
+                                    }
+                                }
+                            }
+                            if degenerate {
+                                rep.local_facets_degenerate_flip += 1;
+                            }
+                        }
+                    }
+                }
             } else if s.sign == 0 {
                 rep.strict = false;
             }
